@@ -10,7 +10,8 @@
  *   R <transport> <k> <mode>                 raw client: connects, writes the first k bytes of a handshake, dies
  *   S <transport> <variant> <queued> <N>     server death: a forked qb_ipcs server stops at its N-th counted call
  *                                            made inside dispatch callbacks; the client runs in this process;
- *                                            variant 0: finite timeouts, 1: sendv_recv / event_recv wait forever
+ *                                            variant 0: finite timeouts, 1: sendv_recv / event_recv wait forever,
+ *                                            2: as 0, then the server itself disconnects the client (stop points inside its tear-down)
  *   transport 0 = QB_IPC_SHM, 1 = QB_IPC_SOCKET; queued 1 = queues are non-empty when the operation starts
  *   mode (what the surviving server had done when the client stopped):
  *     0 fresh   : the server only ran while the client was blocked waiting for it; polls after the death
@@ -302,6 +303,7 @@ struct rsp { struct qb_ipc_response_header hdr; int32_t seq; int32_t pad[3]; };
 #define ID_ECHO    101
 #define ID_BURST   102     /* three events, then a reply */
 #define ID_EVENTS  103     /* three events, no reply */
+#define ID_DISC    104     /* server scenario, variant 2: the server disconnects this client from inside the callback */
 
 static struct { qb_ipcs_connection_t *c; int role; } ctab[64];
 static int nct;
@@ -355,6 +357,13 @@ static int32_t cb_msg(qb_ipcs_connection_t *c, void *data, size_t size)
 	struct msg *m = data;
 	struct rsp r;
 	if (g_log) { log_sync(); vt_ev("Msg"); vt_i(role_lookup(c)); vt_i(m->hdr.id); vt_res(); vt_end(); }
+	if (m->hdr.id == ID_DISC && g_kind == 2) {
+		/* the (forked, dying) server tears the connection down itself: its stop points now include every call of
+		 * that tear-down, e.g. between the removal of a ring's data file and of its header file */
+		qb_ipcs_disconnect(c);
+		if (wc_sh) wc_sh->aux[1] = 1;
+		return 0;
+	}
 	memset(&r, 0, sizeof r);
 	r.hdr.size = sizeof r;
 	r.seq = m->seq;
@@ -723,7 +732,7 @@ static void scenario_server(int transport, int variant, int queued, int N)
 	char name[64];
 	int rdy[2];
 	fdset_t b0;
-	int V = variant ? -1 : 1000;
+	int V = variant == 1 ? -1 : 1000;
 	snprintf(name, sizeof name, "c03s-%d-%d", (int)g_self, ++g_seq);
 	fd_census(&b0);
 	vt_ev("Start"); vt_i(3); vt_i(transport); vt_i(variant); vt_i(queued); vt_i(0); vt_i(N); vt_res(); vt_end();
@@ -760,6 +769,14 @@ static void scenario_server(int transport, int variant, int queued, int N)
 		ccall(c, OP_SEND, ID_EVENTS, 0);
 		for (int i = 0; i < 3; i++) ccall(c, OP_EVENT_RECV, 0, V);
 		ccall(c, OP_RECV, 0, 0);
+		if (variant == 2) {
+			/* ask the server to disconnect us and give it time to get through (or to its stop point inside) that */
+			ccall(c, OP_SEND, ID_DISC, 0);
+			for (int i = 0; i < 500 && !wc_sh->aux[1] && !wc_sh->reached && !srv_check(0, g_phase); i++) {
+				struct timespec ts = { 0, 2000000 };
+				__real_nanosleep(&ts, NULL);
+			}
+		}
 	}
 	/* the server dies at the latest now (stop point "idle, after everything") */
 	wc_sh->phase = ++g_phase;
